@@ -555,6 +555,32 @@ theorem C15_walk_false_is_complete (ppOf : Int → Nat → Nat) (script : List R
   simp only [obs3, Prod.mk.injEq] at ht
   exact ⟨ht.1.trans hs.1, ht.2.2.trans hs.2, ht.2.1⟩
 
+open Paging.Hist Paging.Walk in
+/-- **Every stride hands over exactly the next rows of the result.** For every script, query, prefetch
+    position and every walk (strides of any lengths through either API, with observers, probes and the prefetch
+    running at any moment in between): the rows each stride hands over and the result of its last call are
+    what the SPECIFICATION says for an application that takes the result `Spec.rows script` in pieces of those
+    lengths — the next `k` rows (fewer only where the result ends), `true` iff there were `k`. Nothing is
+    skipped or repeated at a page boundary, whether the next page was prefetched, is being fetched, or is
+    fetched by the switch; an empty page never ends a stride early. This is what makes op `walk` spec-backed. -/
+theorem C15_walk_rows_spec (ppOf : Int → Nat → Nat) (script : List Reply) (q : Qry) (steps : List Walk.Step)
+    (hq : q.disableAutoPage = false) :
+    strideLog ppOf (Walk.start ppOf script q) steps = Walk.Spec.strides (Spec.rows script) 0 (strideKs steps) := by
+  have hj : J ppOf (Spec.rows script) (Walk.start ppOf script q) :=
+    ⟨start_winv ppOf script q, by
+      rw [start_target]; exact (C15_session_rows (ppOf q.pf) script false q hq).1⟩
+  exact strideLog_spec ppOf (Spec.rows script) steps _ hj
+
+/-- non-vacuity: pages [1,2] / [] / [3] / last []: strides 1, 0, 3 (crossing the empty page and reaching the
+    empty last page: false), 1 -/
+example :
+    let q : Qry := { ident := 1, prepared := false, skipMeta := false, pageSize := 0, pageState := [], disableAutoPage := false }
+    let script : List Reply := [.page [1, 2] (some [7]), .page [] (some [8]), .page [3] (some [9]), .page [] none]
+    Walk.strideLog (fun _ n => n / 2) (Walk.start (fun _ n => n / 2) script q)
+      [.scan .scan 1, .observe, .scan .scanner 0, .await, .scan .scan 3, .scan .scan 1] =
+      [([1], true), ([], true), ([2, 3], false), ([], false)] := by
+  decide
+
 open Paging.Walk in
 /-- **WillSwitchPage() = false at the end of a page means the iteration is over**: no row left on the current
     page and no next page — the next call returns false and sends nothing (`finished`); and WillSwitchPage() =
